@@ -101,9 +101,14 @@ static void ares_llist_attach_at(ares_llist_t            *list,
       list->tail = node;
       break;
     case ARES__LLIST_INSERT_BEFORE:
+      /* at is not the head here (that case was turned into a head insertion
+       * above), so it has a predecessor which must now point at the new node */
       node->next = at;
       node->prev = at->prev;
-      at->prev   = node;
+      if (at->prev != NULL) {
+        at->prev->next = node;
+      }
+      at->prev = node;
       break;
   }
   if (list->tail == NULL) {
